@@ -110,6 +110,11 @@ func (g *DependencyGraph) AddProvider(provider Provider) error {
 		}
 		g.nodes[nodeKey] = node
 	}
+	// Remember what is being replaced so that a rejected add can be undone exactly
+	prevProvider := node.Provider
+	prevEdges, hadEdges := g.edges[nodeKey]
+	var createdDeps []NodeKey
+
 	node.Provider = provider
 
 	// Clear existing edges for this node (in case of replacement)
@@ -133,6 +138,7 @@ func (g *DependencyGraph) AddProvider(provider Provider) error {
 				Dependencies: make([]NodeKey, 0),
 				Dependents:   make([]NodeKey, 0),
 			}
+			createdDeps = append(createdDeps, depKey)
 		}
 	}
 
@@ -148,9 +154,22 @@ func (g *DependencyGraph) AddProvider(provider Provider) error {
 
 	// Check for cycles immediately
 	if err := g.detectCyclesFrom(nodeKey); err != nil {
-		// Remove the node if it creates a cycle
-		delete(g.nodes, nodeKey)
-		delete(g.edges, nodeKey)
+		// Undo the add: drop what it created, restore what it replaced
+		for _, depKey := range createdDeps {
+			delete(g.nodes, depKey)
+		}
+		if exists {
+			node.Provider = prevProvider
+			if hadEdges {
+				g.edges[nodeKey] = prevEdges
+			} else {
+				delete(g.edges, nodeKey)
+			}
+			node.Dependencies = append(make([]NodeKey, 0, len(prevEdges)), prevEdges...)
+		} else {
+			delete(g.nodes, nodeKey)
+			delete(g.edges, nodeKey)
+		}
 		g.updateDegrees()
 		return err
 	}
